@@ -4,17 +4,32 @@ from lib.vlib import Query
 PROPERTY = "C20"
 META = {
     "level": "model_checking",
-    "functions": ["ascon_bytes_to_hex", "ascon_bytes_from_hex", "ascon::bytes_from_hex / bytes_to_hex (IR route)", "ascon::byte_array (ASCON_NO_STL, IR route)"],
+    "functions": ["ascon_bytes_to_hex", "ascon_bytes_from_hex",
+                  "ascon::bytes_from_hex(const char*, size_t) in both configurations (std::vector and ASCON_NO_STL), clang++ -O2 IR translated by enc/llvm/ll2c.py",
+                  "ascon::byte_array (ASCON_NO_STL): constructors, destructor, operator=, operator[] (const and non-const), size, empty, data, reserve, resize, clear, "
+                  "push_back, pop_back, detach, cmp and the six comparison operators (src/ascon/utility.h, src/cplusplus/ascon-byte-array.cpp, same route)"],
     "bounds": "decoder: every string of 0..8 characters (thorough 0..10), all 256 values per character, output space symbolic 0..8 bytes in an exactly sized heap object; "
-              "encoder: 0..6 bytes, symbolic output space 0..2n+3; round trip 0..8 bytes",
-    "outside": "strings longer than 10 characters; inlen*2+1 overflowing size_t in the encoder (no such buffer exists)",
-    "assumptions": ["malloc succeeds (allocation failure is not in scope)"],
-    "explanation": "bounded model checking against a reference decoder; exact objects make any stray write a bounds violation",
+              "encoder: 0..6 bytes, symbolic output space 0..2n+3; round trip 0..8 bytes; C++ helper: every string of 0..6 (thorough 0..8) characters; "
+              "byte_array: ONE operation (each of 12, with solver-chosen operands) from an ARBITRARY state satisfying the representation invariant - three variables in each "
+              "of the 8 sharing patterns (up to renaming of variables and buffers), per buffer symbolic size 0..4, symbolic capacity max(size,1)..5, symbolic contents, "
+              "ref = number of sharers - after which all observers equal a std::vector value model AND the invariant holds again; that inductive step covers operation "
+              "sequences of any length on up to three aliased values; the model is itself checked against libstdc++'s std::vector through the same driver and translator",
+    "outside": "strings longer than 10 characters; inlen*2+1 overflowing size_t in the encoder (no such buffer exists); byte_array sizes above 4 / capacities above 5 in the pre-state "
+               "(the operation may grow them), more than three variables alive at once, iterators (begin/end are data() + size()), allocation failure; "
+               "the Arduino `String` overloads of bytes_to_hex",
+    "assumptions": ["malloc / operator new succeed (allocation failure is not in scope)",
+                    "byte_array_private layout {ref, size, capacity, data} on LP64, checked by the byte_array:layout-canary query against the real constructor",
+                    "pre-states with capacities that are not multiples of 16 are admitted although the code only creates multiples of 16 (over-approximation of the reachable states)"],
+    "explanation": "bounded model checking against a reference decoder; exact objects make any stray write a bounds violation; data-structure operations as one inductive step "
+                   "from an arbitrary valid state",
 }
 MANIFEST = {
-    "text": "Bounded model checking of the C hex codec against a reference decoder/encoder for all strings up to the bound with a symbolic output-space size; "
-            "the C++ helper and the NO_STL byte_array are decided on clang IR where the translator carries them.",
-    "note": "Trusted: CBMC/cadical. C++ parts: the IR-to-C translator; see level_note in evidence for what it could carry.",
+    "text": "Bounded model checking (CBMC/cadical) of the C hex codec against a reference decoder/encoder for all strings up to the bound with a symbolic output-space size; "
+            "the C++ helper (both configurations) and the ASCON_NO_STL byte_array are compiled by clang++ to LLVM IR, translated to C and decided the same way: the helper "
+            "against the C decoder, the byte_array as one operation from an arbitrary reference-counted sharing state against a std::vector value model, with the "
+            "representation invariant re-established (inductive step), memory safety included.",
+    "note": "Trusted: CBMC/cadical; clang-14 as the C++ front end; the IR-to-C translator. The value model is validated against libstdc++'s std::vector in the same run.",
+    "technique": "bounded model checking with CBMC/cadical (C directly; C++ through LLVM IR translated to C), inductive step over an arbitrary valid data-structure state",
 }
 
 
